@@ -47,10 +47,12 @@ pub fn next_up(x: f64) -> f64 {
 
 impl Script {
     pub fn new(directives: &str, tail: char, n: usize) -> Script {
+        // the scale of the scores decides what one ulp is worth: vary it with the script
+        let base = [100., 1., 1e-3][directives.len() % 3];
         Script {
             directives: directives.chars().collect(),
             pos: 0,
-            held_score: 100.,
+            held_score: base,
             held_vec: vec![0.; n],
             in_flight: false,
             pending: None,
